@@ -496,6 +496,9 @@ def run(ctx):
         ctx.ob("R04.2", "foreign-end-tag-never-empties-the-stack", bad is None and k >= 1, bad or "%d truncations, each at an index known to be non-zero" % k, "html5ever tree_builder step_foreign")
 
     ctx.guard("R04.2", "foreign-root", foreign_end_tag_keeps_the_root)
+    ctx.rule("R04.9", "the meta charset scanner indexes its input only at offsets found in that input (never in a re-sized copy): the unchecked slices cannot be out of range")
+    from .C19 import r19_6
+    ctx.guard("R04.9", "meta-offsets", lambda: r19_6(ctx, "R04.9"))
 
     def name_buf_typestate():
         """character-reference sub-tokenizers: un-consuming the name takes name_buf out of its Option; nothing that reads the
